@@ -5,7 +5,8 @@
 the existing suite passes, and requires every property check to stay silent
 (exit 0, no VIOLATION line).
 
-An edit is {"file", "old", "new"} (exact text, first occurrence; "all": true
+An edit is {"patch": "mutants/refactorings/<x>.diff"} (a unified diff written by an
+independent agent, applied with patch -p1), or {"file", "old", "new"} (exact text, first occurrence; "all": true
 for every occurrence) or {"file", "func": "<text that starts the function,
 e.g. 'func (enc Encoding) Encode('>", "rename": {"old": "new", ...}} which
 renames identifiers (whole words, not after a '.') inside that function only.
@@ -18,6 +19,9 @@ ENV = dict(os.environ, GOFLAGS="-mod=mod", GOPROXY="off", GOSUMDB="off", GOTOOLC
 ALL = ["C%02d" % i for i in range(1, 21)]
 
 def apply(scratch, ed):
+    if "patch" in ed:
+        r = subprocess.run(["patch", "-p1", "-s", "-i", os.path.join(ROOT, ed["patch"])], cwd=scratch, capture_output=True, text=True)
+        return None if r.returncode == 0 else "patch no longer applies: " + r.stdout[-200:]
     p = os.path.join(scratch, ed["file"])
     s = open(p).read()
     if "rename" in ed:
@@ -85,6 +89,8 @@ def main():
             tmp = tempfile.mkdtemp(prefix="wpb-exp-")
             try:
                 os.makedirs(os.path.join(tmp, "a")); os.makedirs(os.path.join(tmp, "b"))
+                if any("patch" in ed for ed in m["edits"]):
+                    shutil.copy(os.path.join(ROOT, m["edits"][0]["patch"]), os.path.join(outd, m["id"] + ".diff")); continue
                 for ed in m["edits"]:
                     for side in ("a", "b"):
                         dst = os.path.join(tmp, side, ed["file"]); os.makedirs(os.path.dirname(dst), exist_ok=True)
